@@ -472,3 +472,128 @@ pub fn mutate_sweep<C: Cv>(prog: &Program, n: usize, seed: u64) -> Value {
 fn _unused<C: Cv>() {
     let _ = Fr::<C>::rand(&mut ChaChaRng::seed_from_u64(0));
 }
+
+// ------------------------------------------------------------------------------------------------
+// C07 batch verification
+// ------------------------------------------------------------------------------------------------
+
+/// job: {"members":[Program (with optional tamper)...], "seed": n, "cap": optional capacity of the shared generators}
+/// Each member is proved honestly from its program, its proof edited by its `tamper` list, verified individually,
+/// and then all are verified in one batch. Returns (trace events, result).
+pub fn batch_run<C: Cv>(job: &Value, record: bool) -> (Vec<Value>, Value) {
+    use ark_bulletproofs::{BulletproofGens, PedersenGens};
+    use merlin::Transcript;
+    use std::cell::RefCell;
+    use std::collections::HashMap;
+    use std::rc::Rc;
+    let members: Vec<Program> = job["members"].as_array().unwrap().iter().map(|m| serde_json::from_value(m.clone()).expect("member program")).collect();
+    let seed = job["seed"].as_u64().unwrap_or(1);
+    let mut events = vec![];
+    if record {
+        events.push(json!({"ev":"batch_begin","role":""}));
+    }
+    struct M<C: Cv> {
+        prog: Program,
+        proof: R1CSProof<C::G>,
+        consts: Rc<RefCell<HashMap<usize, Fr<C>>>>,
+        commits: Rc<RefCell<Vec<C::G>>>,
+        wide: Option<Fr<C>>,
+    }
+    let mut ms: Vec<M<C>> = vec![];
+    let mut individual = vec![];
+    let mut bad: Vec<String> = vec![];
+    for prog in &members {
+        let wide = wide_factor::<C>(prog);
+        let consts = Rc::new(RefCell::new(HashMap::new()));
+        let commits = Rc::new(RefCell::new(vec![]));
+        if record {
+            events.push(setup_event::<C>(prog));
+        }
+        let po = run_prover::<C>(&prog.p, prog.seed, wide, consts.clone(), commits.clone(), record);
+        events.extend(po.events);
+        let proof = match po.proof {
+            Some(p) => p,
+            None => {
+                bad.push(format!("member {}: prover failed: {}", prog.id, po.res));
+                continue;
+            }
+        };
+        let m = ProofM::from_real(&proof);
+        let wire = if prog.tamper.is_empty() { ser_c(&proof) } else { apply_edits::<C>(&m, &prog.tamper) };
+        let pf = match R1CSProof::<C::G>::deserialize_with_mode(&wire[..], Compress::Yes, Validate::No) {
+            Ok(p) => p,
+            Err(_) => {
+                bad.push(format!("member {}: edited proof does not parse", prog.id));
+                continue;
+            }
+        };
+        if record && !prog.tamper.is_empty() {
+            events.push(json!({"ev":"wire","role":"A","proof":proof_json::<C>(&ProofM::from_real(&pf)),"same": wire == ser_c(&proof)}));
+        }
+        let ppc = make_pc::<C>(&prog.p.pc);
+        let vo = run_verifier::<C>(prog.vside(), &pf, wide, consts.clone(), commits.clone(), ppc, record);
+        events.extend(vo.events);
+        if record {
+            events.push(json!({"ev":"end","role":"","pres":"ok","vres":vo.res,"decode":"ok","sync":"skip"}));
+        }
+        individual.push(vo.res.clone());
+        ms.push(M { prog: prog.clone(), proof: pf, consts, commits, wide });
+    }
+    // the batch: shared generators of sufficient (or the requested) capacity
+    let need = ms.iter().map(|m| m.prog.vside().cap).max().unwrap_or(1);
+    let cap = job["cap"].as_u64().map(|c| c as usize).unwrap_or(need);
+    let pc = PedersenGens::<C::G>::default();
+    let bp = BulletproofGens::<C::G>::new(cap, 1);
+    let mut transcripts: Vec<Transcript> = ms.iter().map(|m| {
+        let side = m.prog.vside();
+        let mut t = Transcript::new(static_label(&side.label));
+        for (l, d) in &side.pre {
+            t.append_message(static_label(l), d);
+        }
+        t
+    }).collect();
+    let mut rng = ExtRng::new(seed);
+    let res = {
+        let msr = &ms;
+        let (pcr, bpr) = (&pc, &bp);
+        let rngr = &mut rng;
+        let ts = &mut transcripts;
+        catch_unwind(AssertUnwindSafe(move || {
+            let mut instances = vec![];
+            for (m, t) in msr.iter().zip(ts.iter_mut()) {
+                let cx = new_ctx_pub::<C>("V", m.prog.vside(), t.verif_tid(), m.consts.clone(), m.commits.clone(), m.wide, make_pc::<C>(&m.prog.p.pc));
+                let first: Rc<dyn Fn()> = Rc::new(|| {});
+                let v = build_verifier::<C>(m.prog.vside(), t, &cx, first);
+                instances.push((v, &m.proof));
+            }
+            batch_verify(rngr, instances, pcr, bpr)
+        }))
+    };
+    let bres = match res {
+        Ok(Ok(())) => "ok".to_string(),
+        Ok(Err(e)) => err_name(&e).to_string(),
+        Err(e) => format!("panic: {}", panic_msg(e)),
+    };
+    // the weights the batch drew: one scalar per instance from the caller's RNG, in order
+    let mut replay = ExtRng::new(seed);
+    let alphas: Vec<Fr<C>> = (0..ms.len()).map(|_| Fr::<C>::rand(&mut replay)).collect();
+    if record {
+        events.push(json!({"ev":"batch","role":"","alphas":alphas.iter().map(enc_s::<C>).collect::<Vec<_>>(),"res":bres,"n":ms.len(),
+                           "rng_bytes": rng.taken, "rng_bytes_expected": replay.taken, "cap": cap}));
+    }
+    let all_ok = individual.iter().all(|r| r == "ok");
+    if bres.starts_with("panic") {
+        bad.push(format!("batch_verify {}", bres));
+    } else if !C::TOY && job["cap"].is_null() {
+        if all_ok && bres != "ok" {
+            bad.push(format!("all {} members verify individually, the batch returned {}", ms.len(), bres));
+        }
+        if !all_ok && bres == "ok" {
+            bad.push(format!("batch accepted although individual verdicts are {:?}", individual));
+        }
+    }
+    if individual.iter().any(|r| r.starts_with("panic")) {
+        bad.push(format!("individual verify panics: {:?}", individual));
+    }
+    (events, json!({"id": job["id"], "curve": C::NAME, "individual": individual, "batch": bres, "bad": bad, "n": ms.len()}))
+}
